@@ -131,6 +131,10 @@ class MainVars:
             if x["k"] == "DeclStmt":
                 for d in x["decls"]:
                     if d.get("k") == "VarDecl":
+                        if d.get("helper_local"):
+                            self.helper_locals = getattr(self, "helper_locals", {})
+                            self.helper_locals[d["decl"]] = d
+                            continue
                         self.vars[d["decl"]] = dict(node=d, name=d["name"], order=order, type=(d.get("type") or "") + " | " + (d.get("ctype") or ""),
                                                     types=[d.get("type") or "", d.get("ctype") or ""], getters=set(), init_text="", init_refs=set(), args=set(),
                                                     news=set(), assigned_from=set(), lc=False, lb=False, inc=False)
@@ -162,11 +166,38 @@ class MainVars:
                     if cands:
                         f = sorted(cands, key=lambda f_: len(f_["params"]))[0]
                         self._args(cls + "::" + cls.split("::")[-1], [p["name"] for p in f["params"]], x.get("args", []))
+        hl = getattr(self, "helper_locals", {})
+        # what a helper's local was built from (its initialiser and every assignment to it), to be credited to the variable that
+        # receives the helper's result
+        hl_src = {}
+        for dd, dn in hl.items():
+            if isinstance(dn.get("init"), dict):
+                hl_src.setdefault(dd, []).append(dn["init"])
+        for y, lhs, op, rhs in A.assignments_in(fn["body"]):
+            d0 = A.declref(lhs)
+            if d0 is not None and d0.get("decl") in hl:
+                hl_src.setdefault(d0["decl"], []).append(rhs)
         for y, lhs, op, rhs in A.assignments_in(fn["body"]):
             d = A.declref(lhs)
             if d is None or d["decl"] not in self.vars or op != "=":
                 continue
             v = self.vars[d["decl"]]
+            if y.get("from_return"):
+                # `v = helper(...)` after splicing: v is initialised with what the helper returns
+                srcs, seen_ = [rhs], set()
+                texts = []
+                while srcs:
+                    e_ = srcs.pop()
+                    texts.append(A.show(A.strip(e_)).replace("\n", " "))
+                    for z in A.walk(e_):
+                        if z.get("k") == "CXXMemberCallExpr" and (z.get("callee_class") or "") == "vfps::ProgramOptions":
+                            v["getters"].add((z.get("callee") or "").split("::")[-1])
+                        if z.get("k") == "DeclRefExpr" and z.get("decl") in self.vars:
+                            v["init_refs"].add(z["decl"])
+                        if z.get("k") == "DeclRefExpr" and z.get("decl") in hl and z["decl"] not in seen_:
+                            seen_.add(z["decl"])
+                            srcs += hl_src.get(z["decl"], [])
+                v["init_text"] = (v["init_text"] + " " + " ".join(texts)).strip()
             self._news_from(rhs, v)
             r = A.declref(rhs)
             if r is not None and r.get("decl") in self.vars:
@@ -583,12 +614,37 @@ def _splice_helpers(prog):
         k = len(done) + 1
         off = _ID_OFFSET * k
         pmap = {p_["decl"]: a_ for p_, a_ in zip(params, args)}
+        # locals declared inside the helper: every splice gets its own copy (fresh declaration id, marked as the helper's own)
+        own_locals = set()
+        for y_ in A.walk(body):
+            if y_.get("k") == "DeclStmt":
+                for d_ in y_.get("decls", []):
+                    if d_.get("k") == "VarDecl" and isinstance(d_.get("decl"), int):
+                        own_locals.add(d_["decl"])
+            if y_.get("k") == "CXXForRangeStmt" and isinstance(y_.get("loopvar"), dict) and isinstance(y_["loopvar"].get("decl"), int):
+                own_locals.add(y_["loopvar"]["decl"])
 
         def clone(n, aoff):
             if isinstance(n, list):
                 return [clone(c, aoff) for c in n]
             if not isinstance(n, dict):
                 return n
+            if n.get("k") in ("VarDecl", "DeclRefExpr") and n.get("decl") in own_locals:
+                o_ = {}
+                for kk, v in n.items():
+                    if kk == "decl":
+                        o_[kk] = v + off
+                    elif kk == "id" and isinstance(v, int):
+                        o_[kk] = v + off
+                    elif kk in ("line", "eline") and isinstance(v, int):
+                        o_["src_" + kk] = v
+                        o_[kk] = x.get(kk, x.get("line"))
+                    elif isinstance(v, (dict, list)):
+                        o_[kk] = clone(v, aoff)
+                    else:
+                        o_[kk] = v
+                o_["helper_local"] = name
+                return o_
             if n.get("k") == "DeclRefExpr" and n.get("decl") in pmap and "id" in n:
                 inner = clone_arg(pmap[n["decl"]], n["id"])
                 return {"k": "ParenExpr", "id": n["id"] + off, "line": n.get("line"), "col": n.get("col", 0), "eline": n.get("eline", n.get("line")),
